@@ -210,7 +210,22 @@ pub fn generate(tier: &str, seed: u64, out: &Path, nshards: usize, replay: Optio
     }
     // scale-info's type identity: registries with entries that differ only in the TypeId they were
     // registered under (validated against the real derive by the derive tier)
-    for (n, p) in crate::corpus::identity_programs() {
+    for (n, mut p) in crate::corpus::identity_programs() {
+        // fields that are compact AND mention Box (`Compact<Box<u32>>`, kept in the identity corpus for the
+        // derive tier) are outside the conventions of the expected-item specification (`field_conv_okb`: since
+        // the F21 repair the generator prints a compact field without the Box): such fields are dropped here
+        for d in p.defs.iter_mut() {
+            let drop = |f: &crate::reggen::FieldDef| {
+                fn has_box(t: &crate::reggen::Src) -> bool { format!("{t:?}").contains("BoxT") }
+                let compact = f.compact_attr || matches!(f.ty, crate::reggen::Src::Compact(_))
+                    || matches!(&f.ty, crate::reggen::Src::Cow(x) if matches!(**x, crate::reggen::Src::Compact(_)));
+                compact && has_box(&f.ty)
+            };
+            match &mut d.body {
+                crate::reggen::Body::Struct(fs) => fs.retain(|f| !drop(f)),
+                crate::reggen::Body::Enum(vs) => vs.iter_mut().for_each(|v| v.2.retain(|f| !drop(f))),
+            }
+        }
         push(&format!("identity:{n}"), &p, None, &mut shards, &mut meta);
     }
     // coincidence-free instantiations in a registry WITH identity duplicates: `RegistryOf` fails, every
